@@ -268,6 +268,18 @@ func userScenarios(seed uint64) []History {
 		}
 		out = append(out, History{Family: "faultenum-scenario", Cfg: cfg, Tmpl: int(seed%7) + i, Steps: steps})
 	}
+	// GetAndDelete of a present key: its write-through save is enumerated too
+	for i, mc := range []int{100, 0} {
+		cfg := Cfg{Expiry: forever, IDExpiry: forever, Grace: 300 * sec, CacheExpiry: forever, MaxCache: mc, AcceptIP: 1, AcceptUA: true, JSON: i == 0}
+		steps := []Hop{
+			{Kind: "req", Client: 0, Create: true, Addr: a(0), Agent: 1, Script: []Sop{{Op: "set", K: 0, V: 3}}},
+			{Kind: "wait", D: sec},
+			{Kind: "req", Client: 0, Addr: a(0), Agent: 1, Script: []Sop{{Op: "getdel", K: 0}}},
+			{Kind: "drop"},
+			{Kind: "req", Client: 0, Addr: a(0), Agent: 1, Script: []Sop{{Op: "get", K: 0}}},
+		}
+		out = append(out, History{Family: "faultenum-scenario", Cfg: cfg, Tmpl: int(seed%7) + 20 + i, Steps: steps})
+	}
 	// a replaced ID presented within grace after both records left the cache:
 	// Start makes two loads (the placeholder, then the hop to the live session)
 	for i, mc := range []int{100, 0} {
